@@ -155,3 +155,29 @@ theorem Doc.items_rootsNamed (d : Doc) (h : d.ok = true) : d.items.rootsNamed d.
   rw [if_neg (fun e => hk e.symm)]
 
 end Xsg
+
+namespace Xsg
+
+theorem Items.mem_childNames (is : Items) (k : Name) : k ∈ is.childNames ↔ is.named k ≠ [] := by
+  cases is with
+  | nil => simp [Items.childNames, Items.named]
+  | elem n r =>
+    have ih := Items.mem_childNames r k
+    simp only [Items.childNames, Items.named, List.mem_cons, List.mem_filter]
+    by_cases e : n.name = k
+    · simp [e]
+    · have : k ≠ n.name := fun h => e h.symm
+      simp [e, this, ih]
+  | text c r => simpa [Items.childNames, Items.named] using Items.mem_childNames r k
+  | other r => simpa [Items.childNames, Items.named] using Items.mem_childNames r k
+
+/-- the driver's executable test for `rootsNamed` -/
+theorem Items.rootsNamed_of_childNames (is : Items) (k : Name) (h : is.childNames = [k]) : is.rootsNamed k := by
+  refine ⟨(Items.mem_childNames is k).mp (by simp [h]), ?_⟩
+  intro d hd
+  have : d ∉ is.childNames := by simp [h, hd]
+  by_cases e : is.named d = []
+  · exact e
+  · exact absurd ((Items.mem_childNames is d).mpr e) this
+
+end Xsg
